@@ -773,6 +773,55 @@ def decide(pid, cfg, tier, seed, units, work, ev):
         for u in all_undec[:10]:
             print('  ' + u[:600])
         return 2
+    # ---- bounded stand-ins (labelled bounded, never counted as proved): drivers on the real code for what no contract
+    # reaches (output of the derive macros, feature forwarding), and -- thorough tier -- the session driver of the property
+    bounded = list(cfg.get('bounded', {}).get('quick', []))
+    if tier == 'thorough':
+        bounded += [d for d in cfg.get('bounded', {}).get('thorough', []) if d not in bounded]
+    if bounded and not os.environ.get('VERIF_NO_WITNESS'):
+        rows = []
+        try:
+            import witness
+            fsets = ALL_FEATURE_SETS if (cfg.get('all_feature_sets') and tier == 'thorough') else [mirror.ALL_FEATURES]
+            for fs in fsets:
+                binary, blog = witness.build(work, fs)
+                if binary is None:
+                    if cfg.get('all_feature_sets') and re.search(r'--> embedded-cli(-macros)?/src/', blog[-1]):
+                        rows.append({'driver': 'build', 'features': list(fs), 'found': True, 'input': 'cargo build --no-default-features --features macros,%s' % ','.join(fs),
+                                     'expected': 'the library builds', 'actual': blog[-1][-1500:], 'seed': seed or 1})
+                        break
+                    print('NOTE bounded stand-in not run (witness build failed): %s' % blog[-1][-200:].replace('\n', ' '))
+                    continue
+                for d in bounded:
+                    if d == 'derive_help' and fs != mirror.ALL_FEATURES:
+                        continue
+                    res = witness.run_driver(binary, d, seed, 20000)
+                    res.update({'features': list(fs), 'seed': seed or 1, 'bound': '20000 random sessions / exhaustive small inputs (see witness/src)'})
+                    rows.append(res)
+                    if res.get('found'):
+                        break
+                if rows and rows[-1].get('found'):
+                    break
+        except Exception as e:
+            print('NOTE bounded stand-in not run: %s' % str(e)[-200:])
+        ev['coverage']['bounded_standins'] = [{k: v for k, v in r.items() if k in ('driver', 'features', 'found', 'bound', 'note', 'input', 'expected', 'actual')} for r in rows]
+        bad = [r for r in rows if r.get('found')]
+        if bad:
+            w = bad[0]
+            w['how'] = 'bounded stand-in on the real code: witness %s %s 20000 (features %s)' % (w['driver'], seed or 1, ','.join(w['features']))
+            ev['violations'] = 1
+            ev['coverage']['decided_by'] = 'bounded stand-in on the real code (the proof obligations are discharged; what failed is outside their reach)'
+            rdir = os.path.join(VERIF, 'replays') if 'VERIF_NO_EVIDENCE' not in os.environ else os.path.join(work, 'replays')
+            os.makedirs(rdir, exist_ok=True)
+            h = hashlib.sha256(json.dumps([w.get('input'), w.get('driver')]).encode()).hexdigest()[:10]
+            rpath = os.path.join(rdir, '%s-%s.json' % (pid, h))
+            json.dump({'property': pid, 'failed_obligations': [
+                {'obligation': 'bounded stand-in %s (not a proof obligation)' % w['driver'], 'clause': '', 'tags': [pid]}], 'witness': w},
+                open(rpath, 'w'), indent=1)
+            print('failed obligation: bounded stand-in %s :: %s' % (w['driver'], str(w.get('expected'))[:200]))
+            print('counterexample on the real code: %s  expected %s  actual %s' % (w.get('input'), str(w.get('expected'))[:300], str(w.get('actual'))[:300]))
+            print('VIOLATION property=%s replay=%s' % (pid, rpath))
+            return 1
     print('OK property=%s obligations=%d discharged=%d solver_ms=%d' % (pid, obligations, discharged, solver_ms))
     return 0
 
